@@ -1534,6 +1534,7 @@ func runC17() {
 		}
 	}
 	c17ConfigOracle(rep)
+	c17Tenants(rep)
 
 	rep.Extra["binary_occurrences"] = occ
 	rep.Extra["overloaded_occurrences"] = occOver
@@ -1545,4 +1546,46 @@ func runC17() {
 	}
 	rep.writeShards("cases_c17", cc.header(), "c17case", "c17_mismatches", cases)
 	rep.write()
+}
+
+// c17Tenants: the resolution of an overloaded occurrence is a function of the CURRENT environment: several
+// environments in which the same member names carry functions of different signatures are compiled against one
+// after the other, in several orders, in one process (a resolution remembered from an earlier Compile call must not leak)
+func c17Tenants(rep *Report) {
+	type tenant struct {
+		name string
+		env  map[string]interface{}
+		// expected[src] = source to compile WITHOUT any operator mapping that says what the overloaded form means here
+		expected map[string]string
+	}
+	tenants := []tenant{
+		{"float-add", map[string]interface{}{"X": 2, "Y": 3, "S": "a", "T": "b", "F": 1.5, "G": 2.5,
+			"Add": func(a, b float64) float64 { return a + b + 1000 }, "Eq": func(a, b string) bool { return true }},
+			map[string]string{"X + Y": "X + Y", "F + G": "Add(F, G)", "S == T": "Eq(S, T)", "X == Y": "X == Y", "[X + Y, F + G][1]": "[X + Y, Add(F, G)][1]"}},
+		{"int-add", map[string]interface{}{"X": 2, "Y": 3, "S": "a", "T": "b", "F": 1.5, "G": 2.5,
+			"Add": func(a, b int) int { return a + b + 2000 }, "Eq": func(a, b int) bool { return false }},
+			map[string]string{"X + Y": "Add(X, Y)", "F + G": "F + G", "S == T": "S == T", "X == Y": "Eq(X, Y)", "[X + Y, F + G][1]": "[Add(X, Y), F + G][1]"}},
+		{"any-add", map[string]interface{}{"X": 2, "Y": 3, "S": "a", "T": "b", "F": 1.5, "G": 2.5,
+			"Add": func(a, b interface{}) interface{} { return "any" }, "Eq": func(a, b interface{}) bool { return true }},
+			map[string]string{"X + Y": "Add(X, Y)", "F + G": "Add(F, G)", "S == T": "Eq(S, T)", "X == Y": "Eq(X, Y)", "[X + Y, F + G][1]": "[Add(X, Y), Add(F, G)][1]"}},
+	}
+	orders := [][]int{{0, 1, 2}, {1, 0, 2}, {2, 1, 0}, {0, 2, 1, 0, 1}}
+	for _, ord := range orders {
+		for _, ti := range ord {
+			tn := tenants[ti]
+			for src, want := range tn.expected {
+				rep.Evaluations++
+				got, gerr := c10RunSrc(src, expr.Env(tn.env), expr.Operator("+", "Add"), expr.Operator("==", "Eq"))
+				exp, eerr := c10RunSrc(want, expr.Env(tn.env))
+				if eerr != nil {
+					continue
+				}
+				if gerr != nil || fmt.Sprintf("%#v", got) != fmt.Sprintf("%#v", exp) {
+					rep.fail(Failure{Key: "C17-result-differs", What: "operator form and explicit-call form evaluate differently (environments with the same member names and other signatures compiled in one process)",
+						Input: map[string]interface{}{"tenant": tn.name, "order": ord, "expr": src, "explicit_form": want},
+						Want:  fmt.Sprintf("%#v", exp), Got: fmt.Sprintf("%#v (error %v)", got, gerr)})
+				}
+			}
+		}
+	}
 }
